@@ -43,7 +43,10 @@ class Builder:
                     else:
                         tgt.pop(name, None)
                 else:
-                    v = json.loads(vtext)
+                    try:
+                        v = json.loads(vtext)
+                    except Exception:
+                        continue            # malformed JSON text: the set inside the callback is refused, nothing changes
                     if kind == "S" or name not in tgt:
                         tgt[name] = v
         alg = self.key[1] if self.key else 0
@@ -87,6 +90,18 @@ def judge(path, octkeys):
             if t == "S":
                 _, h, which, typ, name, vtext, replace, rc = ev
                 tgt = b.h if which == "h" else b.c
+                bad_json = False
+                if typ == 4:
+                    try:
+                        bad_json = not isinstance(json.loads(vtext), (dict, list))
+                    except Exception:
+                        bad_json = True
+                if bad_json:
+                    # a JSON value that does not parse (or is a scalar): refused, and the builder keeps what it had - also under replace
+                    cnt("refused_json_sets")
+                    if rc == 0:
+                        viol("builder-set-rc", "set of a malformed JSON value returned 0", ev)
+                    continue
                 if name in tgt and not replace:
                     exp = 1
                 else:
